@@ -44,6 +44,18 @@ CHECKS = {
         'float->half over all 2^32 floats; signed zeros, subnormals, infinities and NaN cases included.',
    note=PROOF_NOTE + 'Multiplication/division/fma use uninterpreted * / % with stated range axioms; quick tier proves fma on the special-value slice only (thorough: all 2^48 triples); F16C path by assumption; NaN payloads unspecified.',
    technique='CBMC code contracts (DFCC) on mechanically lowered code; full-domain bit-precise SAT against IEEE spec functions', design='4 C08'),
+ 'C01': dict(
+   text='xbasic_fixed_string<char,N> (packed-size layout N=7 and N=255, size-field layout N=256, throwing policy) is lowered on every run; the storage classes (size/set_size/adjust_size), the error policy and the counted core of the API '
+        '(assign, push/pop_back, append, resize, insert, erase, replace, copy, clear, compare, at/[]/front/back, the character search overloads with explicit and with DEFAULTED positions) are proved against the std::basic_string specification '
+        'written over the abstract view (len, chars, terminator) from ANY wf state - every length 0..N including exactly N, stale bytes after the terminator - with a ghost character index covering the whole N+1 buffer.',
+   note=PROOF_NOTE + 'char only; strlen layout, silent policy, std::string/initializer_list/iterator/C-string overloads, operator+ and counted-needle searches are not under contract (evidence.not_reached); copy-loop functions at N=255/256 only in the thorough tier (12 min each).',
+   technique='CBMC code contracts (DFCC) on mechanically lowered code; loop contracts in the char_traits model; ghost index', design='4 C01'),
+ 'C02': dict(
+   text='Same lowered code and contracts as C01, claimed for their exceptional and safety parts: every operation throws length_error exactly when the result would exceed N and out_of_range exactly when a position exceeds the relevant length, '
+        'and after either exception every one of the N+1 buffer elements and the length field are unchanged (ghost index over the whole buffer); argument ranges are fresh objects of exactly count elements (over-reads fail a pointer obligation), '
+        'the frame of every operation is the string object itself.',
+   note=PROOF_NOTE + 'Same reach as C01 (char; packed N=7/255, size-field N=256; throwing policy). A stray write of the correct value into m_size is not distinguishable (stated in DESIGN.md).',
+   technique='CBMC code contracts (DFCC): exceptional postconditions, frame and pointer obligations on mechanically lowered code', design='4 C02'),
 }
 NA = {
  'C05': 'variant lifetimes under exceptions, placement-new into a recursive union and visitation tables built from lambdas: no C++ exception/lifetime semantics in CBMC and no faithful mechanical lowering; a hand-written model would be a different technique (DESIGN.md 6)',
